@@ -296,7 +296,7 @@ func (w *c18World) execute(methods []c18Method, prefix []int, allVisible bool) *
 	return ex
 }
 
-func (w *c18World) linearizable(ex *c18Exec) (bool, string) {
+func (w *c18World) linearizable(ex *c18Exec) (bool, string, string) {
 	model := porcupine.Model{
 		Init: func() interface{} { return w.h0 },
 		Step: func(state, input, output interface{}) (bool, interface{}) {
@@ -324,19 +324,21 @@ func (w *c18World) linearizable(ex *c18Exec) (bool, string) {
 			commits = append(commits, porcupine.Operation{ClientId: e.client, Input: e.input, Output: e.output, Call: e.call, Return: 1 << 60})
 		}
 	}
-	allOK := true
+	var failing []string
 	for _, e := range ex.events {
 		if !strings.HasPrefix(e.input, "read ") {
 			continue
 		}
 		ops := append(append([]porcupine.Operation{}, commits...), porcupine.Operation{ClientId: e.client, Input: e.input, Output: e.output, Call: e.call, Return: e.ret})
 		if !porcupine.CheckOperations(model, ops) {
-			allOK = false
+			failing = append(failing, strings.TrimPrefix(e.input, "read "))
 		}
 	}
-	if allOK {
-		return true, ""
+	if len(failing) == 0 {
+		return true, "", ""
 	}
+	sort.Strings(failing)
+	failing = uniq(failing)
 	// explain: which heights would the read match
 	var parts []string
 	for _, e := range ex.events {
@@ -353,7 +355,7 @@ func (w *c18World) linearizable(ex *c18Exec) (bool, string) {
 			parts = append(parts, fmt.Sprintf("%s [%d,%d]", e.input, e.call, e.ret))
 		}
 	}
-	return false, strings.Join(parts, " | ")
+	return false, strings.Join(parts, " | "), strings.Join(failing, "+")
 }
 
 func clipStr(s string, n int) string {
@@ -477,11 +479,12 @@ func c18Explore(c *core.Ctx, r *core.Result, w *c18World, name string, ms []c18M
 			if ex.apiDied != "" {
 				viol("api-handler-panics:"+mn, "an API handler panicked: "+ex.apiDied)
 			}
-			if ok, why := w.linearizable(ex); !ok {
+			if ok, why, which := w.linearizable(ex); !ok {
 				if oc == "ok" {
 					oc = "not-linearizable"
 				}
-				viol("response-not-from-one-committed-height:"+mn, "an API response does not equal the response of any single committed height that is consistent with the call/return order", why)
+				// named by the request(s) whose response is at fault, not by the scenario
+				viol("response-not-from-one-committed-height:"+which, "an API response does not equal the response of any single committed height that is consistent with the call/return order", why)
 			}
 		}
 		outcomes[oc]++
